@@ -7,6 +7,7 @@ import (
 	"reflect"
 	"regexp"
 	"strings"
+	"time"
 	"unsafe"
 
 	"github.com/cinar/indicator/v2/asset"
@@ -46,6 +47,10 @@ func (c14) Gen(rng *rand.Rand, tier string, k int) *Case {
 		n = 280
 	}
 	c.Lens[0] = n
+	if rng.Intn(4) == 0 {
+		c.Delay = []int{9, 1, -5, -11}[rng.Intn(4)] // zone offset in hours (field reused)
+		c.Workers = []int{0, 20, 16}[rng.Intn(3)]   // hour of day (field reused)
+	}
 	return c
 }
 
@@ -110,7 +115,15 @@ func (c14) Run(c *Case, st *Stats) []Violation {
 		st.Skipped["not-evaluated:series-not-longer-than-warm-up"]++
 		return nil
 	}
-	snaps := genSnapshots(n, c.Shape, c.DataSeed, epoch)
+	start := epoch
+	if c.Delay != 0 {
+		// snapshot dates need not be UTC: local midnight (or evening) in a fixed zone; the row of a
+		// snapshot shows the date of that snapshot as the snapshot carries it
+		zone := time.FixedZone(fmt.Sprintf("UTC%+d", c.Delay), c.Delay*3600)
+		start = time.Date(2020, 1, 6, (24+c.Workers)%24, 0, 0, 0, zone)
+		st.Faults["non-utc-snapshot-dates"]++
+	}
+	snaps := genSnapshots(n, c.Shape, c.DataSeed, start)
 	cfgClass := "default"
 	if len(c.Cfg) > 0 {
 		cfgClass = fmt.Sprint(c.Cfg)
@@ -317,6 +330,68 @@ func (c14) Run(c *Case, st *Stats) []Violation {
 	if refOK {
 		st.Probes["rows-compared-with-compute-outcome"] += len(p.rows)
 	}
+	// Step response: "indicator columns are plotted against the dates they were computed for".
+	// Perturb one snapshot j beyond the warm-up (prices x1.2, volume halved), render again and look
+	// at every indicator column (numeric, neither Close nor Outcome): the first row in which it
+	// differs from the unperturbed report must not lie before the row of snapshot j - earlier means
+	// the column shows information from the future (drawn too early). A later first response is
+	// counted but is no verdict (saturation and gating make it data dependent).
+	if len(vs) == 0 && n > S+2 && c.DataSeed%2 == 0 {
+		j := S + 1 + int(c.DataSeed/2)%(n-S-1)
+		pert := append([]*asset.Snapshot{}, snaps...)
+		t := *snaps[j]
+		t.Open, t.High, t.Low, t.Close, t.Volume = t.Open*1.2, t.High*1.2, t.Low*1.2, t.Close*1.2, t.Volume*0.5+1
+		pert[j] = &t
+		var buf2 bytes.Buffer
+		done2 := false
+		o2 := simulate(SimOpts{Policy: simrt.PolicySpec{Name: "fifo"}, MaxSteps: 4_000_000}, func(s *simrt.Sim) {
+			in := make(chan *asset.Snapshot)
+			simrt.GoKind("prod", func() {
+				for _, v := range pert {
+					simrt.Yield(-2, "prod-send")
+					in <- v
+				}
+				simrt.Yield(-3, "prod-close")
+				close(in)
+			})
+			simrt.GoKind("client", func() {
+				if buildStrategy(c.spec()).Report(in).WriteToWriter(&buf2) == nil {
+					done2 = true
+				}
+			})
+		})
+		st.noteSim(o2)
+		if done2 && o2.Err == nil {
+			p2 := parseReport(buf2.String())
+			if len(p2.rows) == len(p.rows) && len(p2.cols) == len(p.cols) {
+				for k, col := range p.cols {
+					if col[0] != "number" || col[1] == "Close" || col[1] == "Outcome" {
+						continue
+					}
+					for r := range p.rows {
+						if len(p.rows[r]) != len(p2.rows[r]) || p.rows[r][k+1] == p2.rows[r][k+1] {
+							continue
+						}
+						d := byDate[p.rows[r][0]]
+						if d < j {
+							add("indicator-column-early["+col[1]+"]", fmt.Sprintf("column %q changes at the row of snapshot %d when only snapshot %d is perturbed", col[1], d, j))
+						} else if d > j && (c.Shape == ShapeWalk || c.Shape == ShapeSpiky) && snaps[j-1].Volume > 2 && smoothColumns[col[1]] {
+							// a column that is a linear (or smooth, non-saturating) function of a window of
+							// prices/volumes ending at the row's snapshot moves in the very row of the
+							// perturbed snapshot on a random walk
+							add("indicator-column-late["+col[1]+"]", fmt.Sprintf("column %q first responds at the row of snapshot %d to a perturbation of snapshot %d", col[1], d, j))
+						} else if d > j {
+							// not a verdict: a saturated oscillator (RSI at 100 in a rising series), a
+							// volume-gated index (NVI) or a flat window legitimately responds later
+							st.Probes["step-response-later-than-perturbation(no verdict)"]++
+						}
+						break
+					}
+				}
+				st.Probes["step-response-reports-compared"]++
+			}
+		}
+	}
 	return vs
 }
 
@@ -326,4 +401,15 @@ func sortStrings(s []string) {
 			s[j], s[j-1] = s[j-1], s[j]
 		}
 	}
+}
+
+// smoothColumns are the report column labels for which a late first response is a verdict:
+// moving averages, bands and oscillators that are smooth functions of the current bar. Discrete or
+// saturating columns (Aroon, Stochastic RSI, RSI and MFI with tiny periods, Super Trend's
+// ratcheting band, the volume-gated NVI, K/D/J) legitimately respond later at times and are not
+// judged for lateness (they are still judged for responding too early).
+var smoothColumns = map[string]bool{
+	"MACD": true, "Signal": true, "Upper": true, "Middle": true, "Lower": true, "Fast": true, "Slow": true,
+	"Medium": true, "Short": true, "Long": true, "SMA": true, "VWMA": true, "VWAP": true, "Weighted Close": true,
+	"Moving Average": true, "TRIX": true, "Qstick": true, "APO": true, "AO": true, "Force Index": true, "CCI": true,
 }
